@@ -103,6 +103,11 @@ func NewProcess(opts ...ProcOpts) *Process {
 }
 
 func (p *Process) run() int {
+	if p.procRunCtx.Err() != nil {
+		// this instance was stopped while it was still pending: it must not launch, whatever a newer
+		// instance of the same process has written into the shared state since
+		return 0
+	}
 	if p.isState(types.ProcessStateTerminating) {
 		verifPoint(p, "run_checked", true)
 		return 0
